@@ -282,7 +282,7 @@ class RlaFromArray(Family):
         p = z3.Int("p")
         ctx.skolem(z3.And(ev.get(t) < p, p < ev.get(t + 1)))
         ctx.add_index(p, p + 1, p - 1)
-        ctx.prove("post.no change inside a run", z3.Not(ne(x.fn(p - 1), x.fn(p))))
+        ctx.prove("post.no change inside a run", z3.Not(ne(x.fn(p - 1), x.fn(p))), live=[t])
         ctx.prove("post.input not modified", z3.BoolVal(x.buf.writes == 0))
 
     def concrete(self, case):
@@ -423,7 +423,7 @@ class RlaStartToEnd(Family):
         ctx.skolem(z3.And(ev.get(t) <= p, p < ev.get(t + 1)))
         ctx.skolem(z3.And(0 <= u, u < m, E(u) <= lo + p, lo + p < E(u + 1)))
         ctx.add_index(u, u + 1)
-        ctx.prove("post.Dense'[p]==Dense[start+p]", va.get(t) == V(u))
+        ctx.prove("post.Dense'[p]==Dense[start+p]", va.get(t) == V(u), live=[p])
         ctx.prove("post.operand not modified", z3.BoolVal(a.ev.buf.writes == 0 and a.va.buf.writes == 0))
 
     def concrete(self, case):
@@ -550,3 +550,169 @@ class RlaConcatenate(Family):
             return {"msg": f"concatenate of rla({case['a']}) variants: {got}", "sig": "wrong:rla-concatenate"}
 
     bounded_cases = RlaUfunc.bounded_cases
+
+
+def _eq_is_transitive_symmetric(ctx, terms):
+    """numpy's == within one dtype (integer equality / IEEE equality) is symmetric and transitive (not reflexive: NaN).
+    Stated for the abstract relation U_equal at the given element terms (assumption, listed in `assumed`)."""
+    EQ = lambda u, v: apply_binary("equal", u, v)
+    for x in terms:
+        for y in terms:
+            ctx.assume(EQ(x, y) == EQ(y, x))
+            for z_ in terms:
+                ctx.assume(z3.Implies(z3.And(EQ(x, y), EQ(y, z_)), EQ(x, z_)))
+
+
+@register
+class RlaRemoveEmpty(Family):
+    """remove_empty_intervals(events, values): every run i with events[i] == events[i+1] is dropped (its boundary i and its value),
+    every other run is kept with its value, its start and its end; no empty run remains; last boundary kept."""
+    name = "RunLengthArray.remove_empty_intervals"
+    qualname = "npstructures.runlengtharray:RunLengthArray.remove_empty_intervals"
+    serves = ["C15", "C16", "C14"]
+    timeout_ms = 30000
+    assumed = ["numpy.flatnonzero contract (rank / position functions)",
+               "numpy.delete(a, flatnonzero(mask)) = a[~mask'] in order, index out of range refused (audited)"]
+
+    def run(self, ctx, kind):
+        from npstructures.runlengtharray import RunLengthArray
+        k = z3.Int("k")
+        ctx.assume(k >= 0)
+        ev = SymArr.symbolic("E", k + 1, "int", np.int64, assume_len=False)
+        va = SymArr.symbolic("V", k, "elem", np.int64, assume_len=False)
+        E, V = ev.fn, va.fn
+        ctx.add_index(k, k + 1, k - 1, z3.IntVal(0), z3.IntVal(1))
+        e2, v2 = RunLengthArray.remove_empty_intervals(ev, va)
+        nz = e2.nz
+        rk, pos = nz.rk, nz.pos
+        k2 = dim_term(v2.shape_[0])
+        ctx.prove("post.len(events')==len(values')+1", dim_term(e2.shape_[0]) == k2 + 1, pool=[k, k + 1])
+        ctx.prove("post.last boundary kept", e2.get(k2) == E(k), pool=[k, k + 1, k2, k2 + 1, rk(k), pos(k2)])
+        # lemma (induction on b): a stretch without a change of E is constant; stated with a witness for the change
+        w = z3.Function(fresh_name("chg"), z3.IntSort(), z3.IntSort(), z3.IntSort())
+        a, b = z3.Int("a"), z3.Int("b")
+        P = lambda a_, b_, wit: z3.Or(E(a_) == E(b_), z3.And(a_ <= wit, wit < b_, E(wit) != E(wit + 1)))
+        ctx.prove("lemma.base: E(a)==E(a)", P(a, a, a), pool=[a])
+        wit = z3.If(E(a) == E(b), b, w(a, b))
+        ctx.prove("lemma.step: stretch [a,b] -> [a,b+1] (witness: the old one, else b)", z3.Implies(z3.And(a <= b, P(a, b, w(a, b))), P(a, b + 1, wit)),
+                  pool=[a, b, b + 1, w(a, b), w(a, b) + 1])
+        ctx.assume_forall("constant-or-change", lambda a_, b_: z3.Implies(z3.And(0 <= a_, a_ <= b_, b_ <= k), P(a_, b_, w(a_, b_))), arity=2)
+        i = z3.Int("i")
+        ctx.skolem(z3.And(0 <= i, i < k, E(i) != E(i + 1)))
+        t = rk(i)
+        nxt = pos(t + 1)
+        ch = w(i + 1, nxt)
+        pool = [i, i + 1, t, t + 1, nxt, nxt + 1, ch, ch + 1, k, k + 1, rk(i + 1), rk(nxt), rk(ch), rk(ch + 1), pos(t)]
+        ctx.prove("post.a non-empty run keeps its value", z3.And(0 <= t, t < k2, v2.get(t) == V(i)), pool=pool)
+        ctx.prove("post.a non-empty run keeps its start", e2.get(t) == E(i), pool=pool)
+        ctx.prove_then_assume("post.lemma: every run between i and the next kept boundary is empty",
+                              z3.And(i < nxt, nxt <= k, z3.Not(z3.And(i + 1 <= ch, ch < nxt, E(ch) != E(ch + 1)))), pool=pool)
+        ctx.prove("post.a non-empty run keeps its end", e2.get(t + 1) == E(i + 1), pool=pool)
+        u = z3.Int("u")
+        ctx.skolem(z3.And(0 <= u, u < k2))
+        ctx.prove("post.every output run is a non-empty input run", z3.And(0 <= pos(u), pos(u) < k, E(pos(u)) != E(pos(u) + 1), rk(pos(u)) == u),
+                  pool=[u, u + 1, pos(u), pos(u) + 1, k, k + 1])
+        ctx.prove("post.inputs not modified", z3.BoolVal(ev.buf.writes == 0 and va.buf.writes == 0))
+
+    def concrete(self, case):
+        from npstructures import RunLengthArray
+        ev, va = np.array(case["events"]), np.array(case["values"])
+        e2, v2 = RunLengthArray.remove_empty_intervals(ev.copy(), va.copy())
+        keep = [i for i in range(len(va)) if ev[i] != ev[i + 1]]
+        if list(e2) != [ev[i] for i in keep] + [ev[-1]] or list(v2) != [va[i] for i in keep]:
+            return {"msg": f"remove_empty_intervals({case['events']}, {case['values']}) = {list(e2)}, {list(v2)}", "sig": "wrong:rla-remove-empty"}
+
+    def concretise(self, kind, model, ghost):
+        return {"events": [0, 0, 2, 2, 5, 5], "values": [1, 2, 3, 4, 5]}
+
+    def bounded_cases(self, tier, seed):
+        import itertools
+        for k in range(0, 5):
+            for d in itertools.product((0, 1, 2), repeat=k):
+                ev = [0]
+                for x in d:
+                    ev.append(ev[-1] + x)
+                yield {"events": ev, "values": [10 + j for j in range(k)]}
+
+
+@register
+class RlaJoinRuns(Family):
+    """join_runs(events, values): run j >= 1 is merged into its predecessor iff values[j] == values[j-1] (numpy ==): boundary j and
+    value j are dropped; first and last boundary kept; every input run lies inside an output run whose value is the value of the first
+    run of its ==-chain; adjacent output runs differ."""
+    name = "RunLengthArray.join_runs"
+    qualname = "npstructures.runlengtharray:RunLengthArray.join_runs"
+    serves = ["C15", "C16", "C14"]
+    timeout_ms = 30000
+    assumed = ["numpy.flatnonzero contract (rank / position functions)",
+               "numpy.delete(a, flatnonzero(mask) + 1) = a without those positions, in order (audited)",
+               "numpy == within one dtype is symmetric and transitive (used at three element terms for 'adjacent output runs differ')"]
+
+    def run(self, ctx, kind):
+        from npstructures.runlengtharray import RunLengthArray
+        k = z3.Int("k")
+        ctx.assume(k >= 1)
+        ev = SymArr.symbolic("E", k + 1, "int", np.int64, assume_len=False)
+        va = SymArr.symbolic("V", k, "elem", np.int64, assume_len=False)
+        E, V = ev.fn, va.fn
+        ctx.assume_forall("increasing", lambda i_: z3.Implies(z3.And(0 <= i_, i_ < k), E(i_) < E(i_ + 1)))
+        EQ = lambda x, y: apply_binary("equal", x, y)
+        ctx.add_index(k, k + 1, k - 1, z3.IntVal(0), z3.IntVal(1))
+        e3, v3 = RunLengthArray.join_runs(ev, va)
+        nz = e3.nz
+        rk, pos = nz.rk, nz.pos
+        k3 = dim_term(v3.shape_[0])
+        Z = z3.IntVal(0)
+        base = [k, k + 1, k - 1, Z, z3.IntVal(1), rk(k), rk(k + 1), k3, k3 + 1, pos(k3), pos(Z), rk(Z), rk(z3.IntVal(1))]
+        ctx.prove("post.len(events')==len(values')+1", dim_term(e3.shape_[0]) == k3 + 1, pool=base)
+        ctx.prove("post.at least one run", k3 >= 1, pool=base)
+        ctx.prove("post.first and last boundary kept", z3.And(e3.get(0) == E(0), e3.get(k3) == E(k)), pool=base)
+        merged = lambda j_: z3.And(1 <= j_, j_ < k, EQ(V(j_), V(j_ - 1)))
+        i = z3.Int("i")
+        ctx.skolem(z3.And(0 <= i, i < k))
+        t = rk(i + 1) - 1                # the output run input run i ends up in
+        h = pos(t)                       # its head: the first run of the chain
+        nxt = pos(t + 1)
+        pool = base + [i, i + 1, t, t + 1, h, h + 1, nxt, nxt + 1, rk(i), rk(h), rk(h + 1), rk(nxt)]
+        ctx.prove_then_assume("post.run i lies in output run t = rank(i+1)-1 headed by h: h <= i < next head", z3.And(0 <= t, t < k3, 0 <= h, h <= i, i < nxt, nxt <= k), pool=pool)
+        ctx.prove("post.output run t carries the head's value and start", z3.And(v3.get(t) == V(h), e3.get(t) == E(h), z3.Not(merged(h))), pool=pool)
+        ctx.prove("post.output run t ends where the next head starts", e3.get(t + 1) == E(nxt), pool=pool)
+        # monotonicity of E (induction, lemma adjacent-sorted=>sorted) gives E(h) <= E(i) and E(i+1) <= E(nxt)
+        ctx.assume_forall("lemma adjacent-sorted=>sorted", lambda a_, b_: z3.Implies(z3.And(0 <= a_, a_ <= b_, b_ <= k), E(a_) <= E(b_)), arity=2)
+        ctx.prove("post.input run i is covered by output run t", z3.And(e3.get(t) <= E(i), E(i + 1) <= e3.get(t + 1)), pool=pool)
+        j = z3.Int("j")
+        ctx.skolem(z3.And(h < j, j <= i))
+        ctx.prove("post.every run after the head up to i equals its predecessor (==-chain)", merged(j), pool=pool + [j, j + 1, j - 1, rk(j), rk(j + 1)], live=[i])
+        # adjacent output runs differ: V(head of t+1) != its predecessor, which is ==-chained to V(h)
+        u = z3.Int("u")
+        ctx.skolem(z3.And(0 <= u, u + 1 < k3))
+        hu, hn = pos(u), pos(u + 1)
+        b = z3.Int("b")
+        ctx.skolem(z3.And(hu <= b, b + 1 < hn))
+        _eq_is_transitive_symmetric(ctx, [V(hu), V(b), V(b + 1), V(hn), V(hn - 1)])
+        pl = [u, u + 1, hu, hu + 1, hn, hn - 1, hn + 1, b, b + 1, b + 2, rk(b + 1), rk(b + 2), rk(hu), rk(hu + 1), rk(hn), k, k + 1]
+        ctx.prove_then_assume("adjacent.lemma: heads are ordered and inside", z3.And(0 <= hu, hu < hn, hn < k), pool=pl)
+        ctx.prove_then_assume("adjacent.chain.lemma: b+1 is merged (not a head), so V(b+1) == V(b)", merged(b + 1), pool=pl, live=[u])
+        # induction on b from the head: C(b) = V(hu) == V(b) for hu < b < hn
+        ctx.prove("adjacent.chain.base: V(hu) == V(hu+1)", z3.Implies(b == hu, EQ(V(hu), V(b + 1))), pool=pl)
+        ctx.prove("adjacent.chain.step: C(b) => C(b+1)", z3.Implies(z3.And(hu < b, EQ(V(hu), V(b))), EQ(V(hu), V(b + 1))), pool=pl)
+        ctx.assume_forall("chain (by the induction above)", lambda b_: z3.Implies(z3.And(hu < b_, b_ < hn), EQ(V(hu), V(b_))))
+        ctx.prove("post.adjacent output runs differ (numpy ==)", z3.Not(EQ(v3.get(u + 1), v3.get(u))), pool=pl)
+        ctx.prove("post.inputs not modified", z3.BoolVal(ev.buf.writes == 0 and va.buf.writes == 0))
+
+    def concrete(self, case):
+        from npstructures import RunLengthArray
+        ev, va = np.array(case["events"]), np.array(case["values"])
+        e3, v3 = RunLengthArray.join_runs(ev.copy(), va.copy())
+        keep = [i for i in range(len(va)) if i == 0 or va[i] != va[i - 1]]
+        if list(e3) != [ev[i] for i in keep] + [ev[-1]] or list(v3) != [va[i] for i in keep]:
+            return {"msg": f"join_runs({case['events']}, {case['values']}) = {list(e3)}, {list(v3)}", "sig": "wrong:rla-join-runs"}
+
+    def concretise(self, kind, model, ghost):
+        return {"events": [0, 1, 3, 4, 6], "values": [5, 5, 7, 7]}
+
+    def bounded_cases(self, tier, seed):
+        import itertools
+        for k in range(1, 6):
+            for v in itertools.product((1, 2), repeat=k):
+                yield {"events": list(range(0, 2 * k + 1, 2)), "values": list(v)}
